@@ -26,6 +26,9 @@ def _impl_one(args):
     k = impl.classify_text(msg_text)
     if 'err' in k:
         return {'classify_err': k['err']}
+    kr = impl.classify_text(ro_text)
+    if kr != {'kind': 'RunningOrder'}:
+        return {'ro_load': kr, 'kind': k['kind']}
     o = impl.add_texts(ro_text, msg_text)
     o['kind'] = k['kind']
     return o
@@ -147,7 +150,7 @@ def evaluate(pid, cases, oc=None, compare_outside_domain=False):
             ro_t, msg_t = TJ.parse(ro_text), TJ.parse(msg_text)
         trees.append((ro_t, msg_t))
         r = {'op': 'add', 'ro': ro_t, 'msg': msg_t}
-        if 'classify_err' not in o:
+        if 'classify_err' not in o and 'ro_load' not in o:
             r['impl'] = {'err': o['err'], 'warns': o['warns'], 'ro': o['ro']}
         reqs.append(r)
     resps = lean.run_batch(reqs)
@@ -157,6 +160,15 @@ def evaluate(pid, cases, oc=None, compare_outside_domain=False):
         oc.evaluations += 1
         oc.count('class:' + c['cls'])
         rec = {'kind': 'add', 'label': c['label'], 'cls': c['cls'], 'ro_text': ro_text, 'msg_text': msg_text}
+        if 'ro_load' in o:
+            # the library cannot read the running-order document itself (it has a roCreate)
+            what = 'the running-order document is not read as a RunningOrder: %r' % (o['ro_load'],)
+            if pid == 'C07' and completed(ro_t):
+                oc.failing.append(dict(rec, spec='a completed running order written out and read back must be a RunningOrder '
+                                       'that is still completed; ' + what))
+            else:
+                oc.disagreements.append(dict(rec, what=what, impl=o['ro_load'], model={'kind': 'RunningOrder'}))
+            continue
         if 'classify_err' in o or 'classify_err' in r:
             # classification outcome is C08's; here only note a disagreement on it
             ie, me = o.get('classify_err'), r.get('classify_err')
@@ -217,6 +229,8 @@ def replay_add(pid, rec):
     from . import lean
     o = _impl_one((rec['ro_text'], rec['msg_text']))
     ro_t, msg_t = TJ.parse(rec['ro_text']), TJ.parse(rec['msg_text'])
+    if 'ro_load' in o:
+        return True, {'impl': o}
     req = {'op': 'add', 'ro': ro_t, 'msg': msg_t}
     if 'classify_err' not in o:
         req['impl'] = {'err': o['err'], 'warns': o['warns'], 'ro': o['ro']}
